@@ -250,6 +250,7 @@ class Replay:
         self.close_sent = False
         self.exit_sent = None
         self.machinery = None
+        self.desync = None
         self.targets = {}        # dt -> target record (redirections)
         self.steps_done = 0
         self.open()
@@ -327,8 +328,12 @@ class Replay:
             else:
                 ch.write(data)
             if ch.get_write_buffer_size() != 0:
-                self.machinery = ('emitter could not send the chunk in one '
-                                  'packet (window bookkeeping differs)')
+                # the reading side has not opened the window the way the
+                # specification predicts: the chunk is now queued in the
+                # emitter and will arrive at unknown times
+                self.desync = ('the reading side did not open the window as '
+                               'predicted: chunk %r could not be sent' %
+                               (units,))
         elif kind == 'mark':
             m = units[0]
             if m == '!sig':
@@ -484,9 +489,11 @@ class Replay:
             elif k == 'redirect':
                 self.redirect(lab[1])
                 self.compare(step, lab, self.run(), lab[2])
-            if self.machinery:
+            if self.machinery or self.desync:
                 break
         self.steps_done = step
+        if self.desync:
+            self.divergences.append(f'step {step}: {self.desync}')
         if not self.machinery:
             self.finish()
 
@@ -617,7 +624,9 @@ def judge(rep):
             elif kind == 'exit':
                 exit_arrived = units[0]
             elif kind == 'close':
+                # a closed channel is the end of every stream on it
                 closed_arrived = True
+                eof_arrived = True
             # once nothing is unread the stream has caught up again
             continue
         if ev[0] == 'redirect':
@@ -818,7 +827,7 @@ def replay(h, case, **kw):
     n_exc = len(h.loop.exceptions)
     try:
         rep.execute()
-        viol = [] if rep.machinery else judge(rep)
+        viol = [] if rep.machinery or rep.desync else judge(rep)
     finally:
         rep.shut()
     loopexc = [str(c.get('exception') or c.get('message'))
@@ -826,3 +835,108 @@ def replay(h, case, **kw):
     return {'divergences': rep.divergences, 'violations': viol,
             'machinery': rep.machinery, 'log': rep.log,
             'loop_exceptions': loopexc, 'role': rep.role}
+
+
+# ---------------------------------------------------------------------------
+# drain(): cases from specs/Stream/Drain.tla
+#   [High, Low, Win, [[op, k, dr, res], ...]]   op in write/open/close/lost/drain
+
+def _drain_conn(h, win):
+    key = ('dr', win)
+    ent = h.conns.get(key)
+    if ent is not None and not ent[1].is_closed():
+        return ent[1], h.transports[key]
+    n0 = len(h.loop.net.all_transports)
+    conn = h._conn(key, encoding=None, window=win)
+    if not hasattr(h, 'transports'):
+        h.transports = {}
+    h.transports[key] = h.loop.net.all_transports[n0]
+    return conn, h.transports[key]
+
+
+def replay_drain(h, case):
+    high, low, win, hist = case
+    if not hasattr(h, 'transports'):
+        h.transports = {}
+    conn, ctrans = _drain_conn(h, win)
+    loop = h.loop
+    n0 = len(h.emit_sessions)
+
+    async def op():
+        return await conn.create_process(command='d', encoding=None)
+    proc = loop.run_until_complete(op())
+    loop.run_until_idle()
+    assert len(h.emit_sessions) == n0 + 1
+    peer = h.emit_sessions.pop()
+    peer.chan.pause_reading()
+    proc.channel.set_write_buffer_limits(high=high, low=low)
+    n_exc = len(loop.exceptions)
+    task = None
+    gone = None
+    paused_obs = False
+    wrote = 0
+    div = []
+    viol = []
+    obs = []
+    step = 0
+    for lab in hist:
+        step += 1
+        o, k, p_dr, p_res = lab
+        finished = None
+        if o == 'write':
+            proc.stdin.write(b'x' * k)
+            wrote += k
+        elif o == 'open':
+            peer.chan.resume_reading()
+            loop.run_until_idle()
+            peer.chan.pause_reading()
+        elif o == 'close':
+            peer.chan.close()
+            gone = 'clean'
+        elif o == 'lost':
+            ctrans.cut(ConnectionResetError('cut by harness'))
+            gone = 'exc'
+        elif o == 'drain':
+            task = loop.create_task(proc.stdin.drain())
+        loop.run_until_idle()
+        if gone is None:
+            size = proc.channel.get_write_buffer_size()
+            paused_obs = size > low if paused_obs else size > high
+        if task is not None and task.done():
+            finished = 'raise' if task.exception() is not None else 'ret'
+            # ---- the property, on observations ----
+            if finished == 'ret' and paused_obs:
+                viol.append(('drain-returned-while-paused', o,
+                             f'drain() returned normally at step {step} '
+                             f'({o}) while writing was paused (write buffer '
+                             f'above the water marks {low}/{high}) and '
+                             f'channel state {gone}'))
+            if finished == 'raise' and gone is None:
+                viol.append(('drain-raised-on-open-channel', o,
+                             f'drain() raised {task.exception()!r} at step '
+                             f'{step} with the channel open'))
+            task = None
+        o_dr = 'waiting' if task is not None else 'idle'
+        o_res = finished if finished else \
+            ('none' if o == 'drain' else None)
+        obs.append([o, k, o_dr, o_res])
+        if o_dr != p_dr or (o_res is not None and o_res != p_res) or \
+                (finished is None and o != 'drain' and p_dr == 'idle' and
+                 step > 1 and hist[step - 2][2] == 'waiting'):
+            div.append(f'step {step} {lab}: observed drain {o_dr}/{o_res}')
+    if task is not None:
+        if gone is not None or not paused_obs:
+            viol.append(('drain-hung', hist[-1][0],
+                         f'drain() still waiting at the end although '
+                         f'channel state is {gone} and paused={paused_obs}'))
+        task.cancel()
+    try:
+        proc.close()
+        peer.chan.close()
+        loop.run_until_idle()
+    except Exception:                   # pylint: disable=broad-except
+        pass
+    loopexc = [str(c.get('exception') or c.get('message'))
+               for c in loop.exceptions[n_exc:]]
+    return {'divergences': div, 'violations': viol, 'obs': obs,
+            'loop_exceptions': loopexc}
